@@ -216,6 +216,11 @@ def group_case(sh, case, driver='group'):
         attach.take_violations()
         sh.case_done(case, False)
         return
+    befores = [m.df_features.copy(deep=True) for m in models]
+    if case.get('edit'):
+        # a threshold edited in place on the group after the fit: the recomputation uses the group's CURRENT thresholds
+        bg.thresholds[case['edit'][0]] = case['edit'][1]
+        sh.note('group_threshold_edited_before_recompute')
     try:
         with quiet():
             bg.recompute_edges(case['reduction'])
@@ -239,6 +244,23 @@ def group_case(sh, case, driver='group'):
                 if np.any(old[i] & ~new):
                     vs.append({'mechanism': 'burst-cycle-lost', 'message': 'group model %d lost a burst cycle with unchanged thresholds' % i})
                     break
+    if not vs:
+        from bycycle.burst import recompute_edges
+        r_ = case['reduction'] or 0
+        cur = {k: (v - r_ if k.endswith('threshold') else v) for k, v in bg.thresholds.items()}
+        for i, (m, b0) in enumerate(zip(models, befores)):
+            try:
+                with quiet():
+                    exp = recompute_edges(b0.copy(deep=True), dict(cur))
+            except Exception:
+                break
+            d = poollog.tables_equal(m.df_features, exp)
+            if d is not None:
+                vs.append({'mechanism': 'group-recompute-not-with-current-thresholds',
+                           'message': 'model %d after BycycleGroup.recompute_edges(%r) differs from recompute_edges(fitted table, current thresholds - r): %s'
+                                      % (i, case['reduction'], d)})
+                break
+        attach.take_violations()
     for v in vs:
         sh.violate(case, v, driver)
     sh.note('group_recompute_runs')
@@ -262,7 +284,8 @@ def run(sh):
         one(sh, case)
         if it % 10 == 0:
             rows = [gen.gen_signal(rng, fs, lo, hi, 3.0, 'bursty')[0][:int(3 * fs) - 2] for _ in range(3)]
-            guarded(sh, group_case, sh, {'sigs': np.array(rows), 'fs': fs, 'f_range': (lo, hi), 'thr': thr, 'reduction': case['reduction']})
+            guarded(sh, group_case, sh, {'sigs': np.array(rows), 'fs': fs, 'f_range': (lo, hi), 'thr': thr, 'reduction': case['reduction'],
+                                         'edit': [['amp_consistency_threshold', 0.05], ['monotonicity_threshold', 0.2], None][(it // 10 + sh.shard) % 3]})
             # ... and a 3-D group whose first two extents differ
             shp = [(2, 3), (3, 2), (1, 3), (3, 1)][(it // 10 + sh.shard) % 4]
             rows3 = [gen.gen_signal(rng, fs, lo, hi, 3.0, 'bursty')[0][:int(3 * fs) - 2] + 1e-3 * j for j in range(shp[0] * shp[1])]
